@@ -4,7 +4,7 @@ import "strings"
 
 func init() {
 	register("C04",
-		"Decides 'skipping a value consumes exactly the bytes decoding it would' at the level of wire-token languages, for all 27 codec types at once: the automaton extracted from Skip accepts exactly the token sequences the automaton of Read accepts (WA-RS), size-prefixed blocks are handled as the specification lays them out (WA-NEG), Skip accepts every framing of the specification including the byte-size fast path (WA-SPEC-S), New/Omit consume nothing (WA-NEWPURE), and the record reader skips exactly the fields the builder marked absent, with the very sentinel it tests, decoding all others at their own offset (BT-SENTINEL).  A record field is bound to the offset and type of the struct field of that name in the target type itself, so adding or permuting target fields cannot move another field's store (BT-REC, SG-NAMES).  Fields of the target that the file does not carry keep the zero value of a freshly cleared slot (AL-CLR, AL-CLOSE, AL-BUMP). "+
+		"Decides 'skipping a value consumes exactly the bytes decoding it would' at the level of wire-token languages, for all 27 codec types at once: the automaton extracted from Skip accepts exactly the token sequences the automaton of Read accepts (WA-RS), size-prefixed blocks are handled as the specification lays them out (WA-NEG), Skip accepts every framing of the specification including the byte-size fast path (WA-SPEC-S), New/Omit consume nothing (WA-NEWPURE), and the record reader skips exactly the fields the builder marked absent, with the very sentinel it tests, decoding all others at their own offset (BT-SENTINEL).  A record field is bound to the offset and type of the struct field of that name in the target type itself, so adding or permuting target fields cannot move another field's store (BT-REC, SG-NAMES).  Fields of the target that the file does not carry keep the zero value of a freshly cleared slot (AL-CLR, AL-CLOSE, AL-BUMP).  The record reader is folded for five target shapes — some, none, only the first, only the last, only a middle schema field present — and must visit every entry once, in order, skipping exactly the absent ones (BT-SENTINEL, REC-LIST).  Skip refuses input of its own accord only on a test of a decoded value that Read makes too, and a test of the input left refuses only for lack of the bytes about to be consumed (SK-FAIL). "+
 			"Not decided: that projected and full decodes agree on values; feasibility of individual paths (the comparison is between regular languages of tokens).",
 		func(c *Ctx) {
 			ruleWARS(c)
@@ -18,10 +18,11 @@ func init() {
 			ruleSGNames(c)
 			ruleALBump(c)
 			ruleBTWidth(c, true)
+			ruleSKFail(c)
 		})
 
 	register("C03",
-		"Decides framing-level necessary conditions of C03: every framing the Avro 1.8 specification allows for a schema type — any number of array/map blocks, with or without byte sizes, selector then branch with null in either position — is accepted by the Read and the Skip automaton of every codec built for that type (WA-SPEC-R, WA-SPEC-S, WA-NEG); the nullable-union codecs take the value branch's index from the schema and compare the decoded selector with it (BT-NONNULL); integer destinations are written only within their exact range (RC-RANGE) and every (schema type, Go kind) pair is width-exact or rejected (BT-WIDTH); reader and writer agree on the three compression codec names (CT-AGREE); each file block decodes exactly its declared count (OD-LOOP).  The file reader zeroes the destination with its own type before every record, so a null branch leaves the zero value and not the previous record (OD-CLEAR). "+
+		"Decides framing-level necessary conditions of C03: every framing the Avro 1.8 specification allows for a schema type — any number of array/map blocks, with or without byte sizes, selector then branch with null in either position — is accepted by the Read and the Skip automaton of every codec built for that type (WA-SPEC-R, WA-SPEC-S, WA-NEG); the nullable-union codecs take the value branch's index from the schema and compare the decoded selector with it (BT-NONNULL); integer destinations are written only within their exact range (RC-RANGE) and every (schema type, Go kind) pair is width-exact or rejected (BT-WIDTH); reader and writer agree on the three compression codec names (CT-AGREE); each file block decodes exactly its declared count (OD-LOOP).  The file reader zeroes the destination with its own type before every record, so a null branch leaves the zero value and not the previous record (OD-CLEAR).  No Read or Skip refuses on a presumption about how much input a value needs (SK-FAIL), and no decoded value is a view of the block buffer that the next block overwrites (AL-BUF). "+
 			"Not decided: decoded values.",
 		func(c *Ctx) {
 			ruleWASpec(c, "RS")
@@ -37,10 +38,12 @@ func init() {
 			ruleODClear(c, s)
 			ruleODMeta(c, s)
 			ruleCPDrain(c, s)
+			ruleSKFail(c)
+			ruleALBuf(c)
 		})
 
 	register("C13",
-		"Decides necessary conditions of C13 for caller-supplied schemas: a nullable union writes exactly one selector, the null branch's index 1-nonNull when the value is omitted and nonNull otherwise, and exactly then the value (WA-SEL), with nonNull derived from the schema for either null position (BT-NONNULL); what the union codecs write is accepted by their own Read and is a specification encoding (WA-WR, WA-SPEC-W); configuration that drives Read drives Write (E-FU); &x handed between codecs has the callee's width (PC-ARG); the full schema-type x Go-kind table is width-exact (BT-WIDTH); logical-type multipliers and units agree (TS-MULT, TS-UNIT).  Omit is true only on a zero test of the value at its pointer, so a non-zero value (a pointer to zero, the epoch) is never written as null (OM-ZERO).  What New allocates is what Read fills in (PC-NEW).  No product is formed in a 32-bit type and widened afterwards (TS-WIDE). "+
+		"Decides necessary conditions of C13 for caller-supplied schemas: a nullable union writes exactly one selector, the null branch's index 1-nonNull when the value is omitted and nonNull otherwise, and exactly then the value (WA-SEL), with nonNull derived from the schema for either null position (BT-NONNULL); what the union codecs write is accepted by their own Read and is a specification encoding (WA-WR, WA-SPEC-W); configuration that drives Read drives Write (E-FU); &x handed between codecs has the callee's width (PC-ARG); the full schema-type x Go-kind table is width-exact (BT-WIDTH); logical-type multipliers and units agree (TS-MULT, TS-UNIT).  Omit is true only on a zero test of the value at its pointer, so a non-zero value (a pointer to zero, the epoch) is never written as null (OM-ZERO).  What New allocates is what Read fills in (PC-NEW).  No product is formed in a 32-bit type and widened afterwards (TS-WIDE) and no 64-bit count is narrowed before it is divided (TS-NARROW).  A validity wrapper is omitted exactly when its Valid flag is false (OM-VALID). "+
 			"Not decided: inversion for all values.",
 		func(c *Ctx) {
 			ruleWASel(c)
@@ -56,7 +59,9 @@ func init() {
 			ruleOMZero(c)
 			rulePCNew(c)
 			ruleTSWide(c)
+			ruleTSNarrow(c)
 			ruleVarStd(c)
+			ruleOMValid(c)
 		})
 }
 
@@ -80,11 +85,12 @@ func init() {
 
 func init() {
 	register("C14",
-		"Decides structural clauses of C14 on the hand-written marshal/unmarshal pair: the JSON names of the schema object's attributes are the Avro attribute names, pairwise distinct (JS-TAG); every success path of the object form writes BeginObject (name value)* EndObject (JS-BAL); each name written is followed by the value of the field that carries that JSON name, with \"type\" taken from the hoisted Schema.Type (JS-KEY); every attribute is written somewhere and each complex type writes exactly the attribute the specification gives it (JS-EXH); parsing dispatches on string/array/object, hoists Type out of the object and clears it there, rejects other tokens (JS-HOIST), and propagates the JSON library's errors (ER-CHECK). "+
+		"Decides structural clauses of C14 on the hand-written marshal/unmarshal pair: the JSON names of the schema object's attributes are the Avro attribute names, pairwise distinct (JS-TAG); every success path of the object form writes BeginObject (name value)* EndObject (JS-BAL); each name written is followed by the value of the field that carries that JSON name, with \"type\" taken from the hoisted Schema.Type (JS-KEY); every attribute is written somewhere and each complex type writes exactly the attribute the specification gives it (JS-EXH); parsing dispatches on string/array/object, hoists Type out of the object and clears it there, rejects other tokens (JS-HOIST), and propagates the JSON library's errors (ER-CHECK); serialising constructs no error of its own, so every schema that was parsed or generated can be written out again (JS-TOTAL). "+
 			"Not decided: independence from key order and unknown attributes (the JSON library's struct decoding), and that re-parsing yields an identical value.",
 		func(c *Ctx) {
 			ruleJS(c)
 			ruleJSWhole(c)
+			ruleJSTotal(c)
 			c.Rule("ER-CHECK", erClauses["ER-CHECK"], 3)
 			schemaT := c.P.NamedType(c.P.Avro, "Schema")
 			for _, name := range []string{"UnmarshalJSONFrom"} {
@@ -100,7 +106,7 @@ func init() {
 
 func init() {
 	register("C01",
-		"Decides necessary conditions of the encode-then-read round trip, writer against reader and schema generator against codec builder: everything each codec's Write emits is accepted by its own Read (WA-WR); length prefixes and item counts are those of the data written (WA-LEN, WA-CNT); on the generated-schema path every Go kind gets a codec of exactly its width (BT-WIDTH) and Read, Write and Omit of one codec agree on what the pointer is (PC-METH); pointers are always wrapped in a union because the pointer codec writes nothing for nil (BT-PTRWRAP); schema generation and codec construction take field names and the omit flag from the same helpers (SG-NAMES); the schema in the header is the one the codec was built from (ENC-SAME); the target is cleared before each record (OD-CLEAR).  Added after seed round 5: varints are written only by the standard encoder (VAR-STD) and Omit is true only on a zero test of the value (OM-ZERO).  What is handed to the decompressor is exactly the bytes read for this block (OD-LEN, OD-FLOW). "+
+		"Decides necessary conditions of the encode-then-read round trip, writer against reader and schema generator against codec builder: everything each codec's Write emits is accepted by its own Read (WA-WR); length prefixes and item counts are those of the data written (WA-LEN, WA-CNT); on the generated-schema path every Go kind gets a codec of exactly its width (BT-WIDTH) and Read, Write and Omit of one codec agree on what the pointer is (PC-METH); pointers are always wrapped in a union because the pointer codec writes nothing for nil (BT-PTRWRAP); schema generation and codec construction take field names and the omit flag from the same helpers (SG-NAMES); the schema in the header is the one the codec was built from (ENC-SAME); the target is cleared before each record (OD-CLEAR).  Added after seed round 5: varints are written only by the standard encoder (VAR-STD) and Omit is true only on a zero test of the value (OM-ZERO).  What is handed to the decompressor is exactly the bytes read for this block (OD-LEN, OD-FLOW).  A validity wrapper is written as null exactly when its Valid flag is false, whatever payload it carries (OM-VALID); no decoded value is a view of the reusable block buffer (AL-BUF). "+
 			"Not decided: equality of values for all types, values and configurations.",
 		func(c *Ctx) {
 			ruleWAWR(c, nil, 27)
@@ -118,10 +124,12 @@ func init() {
 			ruleOMZero(c)
 			ruleODLenFlow(c, findReadFile(c.P))
 			ruleENC(c)
+			ruleOMValid(c)
+			ruleALBuf(c)
 		})
 
 	register("C02",
-		"Decides necessary conditions of 'valid Avro for an independent reader' against an oracle that is not the library's own reader: the block and header layout (OD-BLOCK, OD-HDR), the snappy trailer (CRC-BE), and for every codec type that what Write emits lies in the language the Avro 1.8 specification defines for the schema types the codec is built for (WA-SPEC-W); a nullable union writes exactly one selector with the right index and exactly the selected branch (WA-SEL); counts and length prefixes are those of the data (WA-CNT, WA-LEN); the omit flag reaches the codec whose Omit the union consults (BT-OMIT) and Omit is true only for nil/invalid/empty-under-omitempty (OM-SHAPE); Read/Write/Omit agree on the pointer (PC-METH); the embedded schema is the codec's own and is balanced JSON with the right keys (ENC-SAME, JS-*); pointers are wrapped in unions (BT-PTRWRAP).  Omit is true only on a zero test of the value at its pointer (OM-ZERO).  An encoder is handed out only after the header has been written (ENC-HDR): a zero-record file is still a container. "+
+		"Decides necessary conditions of 'valid Avro for an independent reader' against an oracle that is not the library's own reader: the block and header layout (OD-BLOCK, OD-HDR), the snappy trailer (CRC-BE), and for every codec type that what Write emits lies in the language the Avro 1.8 specification defines for the schema types the codec is built for (WA-SPEC-W); a nullable union writes exactly one selector with the right index and exactly the selected branch (WA-SEL); counts and length prefixes are those of the data (WA-CNT, WA-LEN); the omit flag reaches the codec whose Omit the union consults (BT-OMIT) and Omit is true only for nil/invalid/empty-under-omitempty (OM-SHAPE); Read/Write/Omit agree on the pointer (PC-METH); the embedded schema is the codec's own and is balanced JSON with the right keys (ENC-SAME, JS-*); pointers are wrapped in unions (BT-PTRWRAP).  Omit is true only on a zero test of the value at its pointer (OM-ZERO).  An encoder is handed out only after the header has been written (ENC-HDR): a zero-record file is still a container.  A validity wrapper is omitted exactly when Valid is false (OM-VALID). "+
 			"Not decided: agreement of values with an external decoder.",
 		func(c *Ctx) {
 			ruleODBlock(c)
@@ -140,6 +148,7 @@ func init() {
 			ruleCPFresh(c, s)
 			ruleBTPtrWrap(c)
 			ruleOMZero(c)
+			ruleOMValid(c)
 			if enc := findEncoder(c.P); enc.ctor != nil {
 				ruleENCHdr(c, enc.ctor)
 			}
